@@ -10,7 +10,7 @@ Inductive opcode : Type :=
 | OAdd | OSub | OMul | ODiv | OIdiv | OMod | OUnm
 | OLt | OLe | OEq | OGt | OGe | ONe
 | OBand | OBor | OBxor | OShl | OShr | OBnot
-| OAbs | OFloor | OCeil | OFmod | OToInteger | OUlt | OMax | OMin | OModf | OMType.
+| OAbs | OFloor | OCeil | OFmod | OToInteger | OUlt | OMax | OMin | OModf | OMType | OKeyType.
 
 Inductive rval : Type :=
 | RvNum (x : num) | RvBool (b : bool) | RvNil | RvErr (e : err) | RvPair (x : num) (y : f64)
@@ -34,6 +34,12 @@ Definition eval_im (o : opcode) (x y : num) : rval :=
   | OMax => RvNum (math_max x y) | OMin => RvNum (math_min x y)
   | OModf => let '(i, f) := math_modf x in RvPair i f
   | OMType => RvType (match x with NInt _ => true | NFlt _ => false end)
+  (* t[x] = v: a float key with an integer value is stored under the integer (FloatToInt); NaN is an error *)
+  | OKeyType => match x with
+                | NInt _ => RvType true
+                | NFlt f => if fis_nan f then RvErr EOther
+                            else match FloatToInt f with Some _ => RvType true | None => RvType false end
+                end
   end.
 
 (* S side *)
@@ -106,4 +112,9 @@ Definition eval_s (o : opcode) (x y : num) : rval :=
   | OMax => RvNum (if s_lt x y then y else x) | OMin => RvNum (if s_lt y x then y else x)
   | OModf => let '(i, f) := math_modf x in RvPair i f
   | OMType => RvType (match x with NInt _ => true | NFlt _ => false end)
+  | OKeyType => match x with
+                | NInt _ => RvType true
+                | NFlt f => if fis_nan f then RvErr EOther
+                            else match s_float_to_int f with Some _ => RvType true | None => RvType false end
+                end
   end.
